@@ -419,6 +419,19 @@ cmd_lattice(const char *tag, int with_scores)
                 }
             }
             fprintf(vt_out, "]}");
+            {
+                /* asking for the posteriors again must give sane numbers again */
+                int32 post2 = lattice_posterior(dag, ascale), maxp = -2000000000;
+                for (i = 0; i < n; ++i) {
+                    latlink_iter_t *li;
+                    for (li = ps_latnode_exits(nodes[i]); li; li = ps_latlink_iter_next(li)) {
+                        int32 p = ps_latlink_prob(dag, ps_latlink_iter_link(li), NULL);
+                        if (p > maxp)
+                            maxp = p;
+                    }
+                }
+                fprintf(vt_out, ",\"post2\":{\"best\":%d,\"maxlink\":%d}", (int)post2, (int)maxp);
+            }
         }
     }
     fprintf(vt_out, "}\n");
@@ -429,28 +442,36 @@ static void
 cmd_nbest(const char *tag, int max)
 {
     hyp_iter_t *nb = decoder_nbest(d);
-    int n = 0;
+    int n = 0, nmore = 0;
+    int32 *more = (int32 *)calloc(max > 0 ? max : 1, sizeof(int32));
     fprintf(vt_out, "{\"e\":\"NBest\",\"tag\":\"%s\",\"items\":[", tag);
     while (nb) {
         int32 score = 0;
         const char *hyp = hyp_iter_hyp(nb, &score);
-        seg_iter_t *seg;
-        fprintf(vt_out, "%s{\"score\":%d,\"hyp\":", n ? "," : "", (int)score);
-        emit_hyp_words(hyp);
-        fprintf(vt_out, ",\"segs\":");
-        seg = hyp_iter_seg(nb);
-        if (seg)
-            emit_segs(seg);
-        else
-            fprintf(vt_out, "[]");
-        fputc('}', vt_out);
+        if (n < 40) {
+            seg_iter_t *seg;
+            fprintf(vt_out, "%s{\"score\":%d,\"hyp\":", n ? "," : "", (int)score);
+            emit_hyp_words(hyp);
+            fprintf(vt_out, ",\"segs\":");
+            seg = hyp_iter_seg(nb);
+            if (seg)
+                emit_segs(seg);
+            else
+                fprintf(vt_out, "[]");
+            fputc('}', vt_out);
+        } else
+            more[nmore++] = score; /* a deep walk: only the scores of the later hypotheses are kept */
         if (++n >= max) {
             hyp_iter_free(nb);
             break;
         }
         nb = hyp_iter_next(nb);
     }
+    fprintf(vt_out, "],\"more\":[");
+    for (n = 0; n < nmore; ++n)
+        fprintf(vt_out, "%s%d", n ? "," : "", (int)more[n]);
     fprintf(vt_out, "],\"exhausted\":%s}\n", nb ? "false" : "true");
+    free(more);
 }
 
 static void
@@ -606,6 +627,23 @@ cmd_json(const char *tag, int start_ms, int level)
         fprintf(vt_out, ",\"alloc\":%ld,\"len\":%ld,\"frate\":%ld,\"nfr\":%d,\"pm\":%d,\"hyp\":", calloc_last, (long)n,
                 config_int(d->config, "frate"), decoder_n_frames(d), prob_milli(decoder_prob(d)));
         emit_bytes(hyp ? hyp : "");
+        {
+            /* dictionary-word segments of the same result (the alignment lists exactly these) */
+            seg_iter_t *sg = decoder_seg_iter(d);
+            int first = 1;
+            fprintf(vt_out, ",\"dsegs\":[");
+            for (; sg; sg = seg_iter_next(sg)) {
+                int sf, ef, k = word_kind(seg_iter_word(sg));
+                if (k != 0 && k != 1)
+                    continue;
+                seg_iter_frames(sg, &sf, &ef);
+                fprintf(vt_out, "%s{\"t\":", first ? "" : ",");
+                emit_bytes(seg_iter_word(sg));
+                fprintf(vt_out, ",\"s\":%d,\"d\":%d}", sf, ef + 1 - sf);
+                first = 0;
+            }
+            fputc(']', vt_out);
+        }
         fprintf(vt_out, ",\"view\":");
         if (level == 0) {
             seg_iter_t *seg = decoder_seg_iter(d);
